@@ -92,4 +92,4 @@ NOT_APPLICABLE = {
     'C16': 'descriptor formulas are pure functions of coordinates, masses, cell and options.',
 }
 
-BUILT.update(['C18', 'C02', 'C19', 'C20', 'C03', 'C17', 'C04'])
+BUILT.update(['C18', 'C02', 'C19', 'C20', 'C03', 'C17', 'C04', 'C08'])
